@@ -80,6 +80,8 @@ def main(c):
         elif k == "sdm":
             a = rnd.choice(["[1.2.3.4]:80", "[::1]:443", "/tmp/sock", "/" + "q" * 100])
             codec.append("sdm %s %d %d %d" % (hx(a), rnd.randint(0, 40), rnd.choice([0, 1, 2, 10, 28, 110, 255]), rnd.choice([-1, -1, rnd.randint(0, 30)])))
+            # cut anywhere, with the length field adjusted to the cut (a short, unterminated Unix path; half an IPv6 address)
+            codec.append("sdm %s -2 0 %d" % (hx(a), rnd.choice([12, 13, 14, 15, 16, 20, 27, 28, 40, 100, 121, 122])))
         elif k == "digits":
             s = rnd.choice([" ", "", "-", "+", "\t-"]) + rnd.choice(["", "0x", "0"]) + rnd.choice("0123456789abcdefz") * rnd.choice([1, 20, 64, 300, 5000])
             nums.append("pn %s e6i %d %d -5 5 %s" % (rnd.choice(["i32", "u64", "umax", "i64"]), rnd.choice([0, 2, 10, 16, 36]), rnd.randint(0, 1), hx(s)))
